@@ -102,10 +102,10 @@ impl FlopExhaustiveEvaluatorIterator {
     }
 }
 
-impl Iterator for FlopExhaustiveEvaluatorIterator {
-    type Item = Showdown;
-
-    fn next(&mut self) -> Option<Showdown> {
+impl FlopExhaustiveEvaluatorIterator {
+    // examines one deal and moves on to the following one: None at the end of
+    // the scope, Some(None) when the deal is blocked, Some(Some(_)) otherwise.
+    fn next_deal(&mut self) -> Option<Option<Showdown>> {
         if self.current_turn_index >= self.turn_to && self.current_river_index >= self.river_to {
             return None;
         }
@@ -184,21 +184,33 @@ impl Iterator for FlopExhaustiveEvaluatorIterator {
                 self.current_player_indexes[i] = 0;
             }
 
-            return showdown.or_else(|| self.next());
+            return Some(showdown);
         }
 
         if self.current_river_index < 48 {
             self.current_river_index += 1;
             self.current_player_indexes.fill(0);
 
-            return showdown.or_else(|| self.next());
+            return Some(showdown);
         }
 
         self.current_turn_index += 1;
         self.current_river_index = self.current_turn_index + 1;
         self.current_player_indexes.fill(0);
 
-        showdown.or_else(|| self.next())
+        Some(showdown)
+    }
+}
+
+impl Iterator for FlopExhaustiveEvaluatorIterator {
+    type Item = Showdown;
+
+    fn next(&mut self) -> Option<Showdown> {
+        loop {
+            if let Some(showdown) = self.next_deal()? {
+                return Some(showdown);
+            }
+        }
     }
 }
 
